@@ -7,9 +7,7 @@ Definition cli_paths : list (list step) := [
   [Compute];
   [Compute; Compute; Compute];
   [Compute; Compute; Compute; Compute; Compute];
-  [Compute; Compute; Compute; Compute; WriteStream; Compute];
-  [Compute; Compute; Compute; Compute; WriteStream; WriteConst];
   [Compute; Compute; Compute; Compute; Compute; Compute];
   [Compute; Compute; Compute; Compute; Compute; Compute; Compute; Compute; WriteVar; WriteConst];
-  [Compute; Compute; Compute; Compute; Compute]
+  [Compute; Compute; Compute; Compute; Compute; Compute; WriteVar; WriteConst]
 ].
